@@ -284,6 +284,9 @@ def bus_element_menu(basename, rich=True):
           ["ext_grid", b0, 1.0, 0., True],
           ["asym_load", b0],
           ["asym_sgen", b0]]
+    # a pair of shunts whose ratings cancel in total (sum(BS) == sum(GS) == 0 although shunts are present)
+    other = 1 if b0 != 1 else 0
+    m += [["shunt", b0, 0., -0.5 * s, 1, 1.0, True], ["shunt", other, 0., 0.5 * s, 1, 1.0, True]]
     if rich:
         m += [["gen", b0, 0.6 * s, 1.02, "wide", True, True],
               ["ext_grid", b0, 1.01, 1.0, False],
